@@ -1303,6 +1303,15 @@ pub fn specs(thorough: bool) -> Vec<Spec> {
     }
   }
   tc.extend(with_wrong_kinds(&[l(vec![n(1)]), l(vec![n(2)])], 2));
+  // a single list (with equal items, with a nested list, produced by another list function): the functions take any number of lists
+  for a in ls.iter().filter(|x| matches!(x, List(v) if v.len() <= 4)) {
+    tc.push(vec![a.clone()]);
+  }
+  tc.push(vec![l(vec![n(1), n(2), n(1), n(2), n(3)])]);
+  tc.push(vec![l(vec![l(vec![n(1)]), l(vec![n(1)]), n(1)])]);
+  tc.push(vec![l(vec![Null, Null])]);
+  tc.push(vec![n(1)]);
+  tc.push(vec![Null]);
   out.push(Spec { name: "concatenate", params: None, tuples: tc.clone() });
   out.push(Spec { name: "union", params: None, tuples: tc });
   // contexts
